@@ -9,6 +9,9 @@ Generator : wire-level forests (independent of bromelia objects) encoded by the
 Oracle    : expected values come from the generator: message count/order,
             header getters, per-AVP code/flags/vendor/data/type (recursively),
             dump() == original slice.
+Concurrent: the class registry is a module global; two generated streams are also
+            decoded by two controlled threads with directed delays between source
+            lines of the registry code, and each must decode as it does alone.
 """
 from hypothesis import strategies as st
 
@@ -214,8 +217,90 @@ def check_stream(case):
     return out
 
 
+# ---------------------------------------------------------------------------------------------------------------------------
+# the class registry is a module global shared by every thread that decodes (one receive thread per connection, application
+# threads): two streams decoded at the same time must each decode exactly as they do alone
+LOADER_FUNCS = ["get_avp_class", "get_avp_class", "_get_load_avps_dictionary", "_get_load_avps_dictionary", "has_updated", "load", "__init__"]
+
+
+@st.composite
+def conc_cases(draw):
+    streams = [draw(wire_stream()), draw(wire_stream())]
+    one = st.builds(lambda t, f, n, d: [t, f, n, d], st.sampled_from(["dec-0", "dec-1"]), st.sampled_from(LOADER_FUNCS),
+                    st.integers(1, 60), st.sampled_from([0.001, 0.02, 0.3]))
+    # directed recipe: one thread pauses briefly between two lines of a registry lookup while the other pauses, for longer, in
+    # the middle of a registry refresh
+    recipe = st.builds(lambda x, n1, n2: [[f"dec-{x}", "get_avp_class", n1, 0.02], [f"dec-{1 - x}", "_get_load_avps_dictionary", n2, 0.3]],
+                       st.integers(0, 1), st.integers(1, 40), st.integers(1, 300))
+    holds = draw(st.one_of(recipe, recipe, st.lists(one, min_size=1, max_size=3)))
+    return {"conc": True, "streams": streams, "holds": holds}
+
+
+def run_conc(case):
+    from ..dsched import Scheduler, Net, Patch
+    common.bootstrap()
+    refdict.all_classes()
+    sched = Scheduler(choices=None, line_preempt=False, trace_prefix=common.REPO.rstrip("/") + "/bromelia/", max_steps=200000, line_holds=True)
+    net = Net(sched)
+    res = {}
+    info = {}
+    with Patch(sched, net):
+        sched.register_driver()
+        try:
+            for t, f, n, d in case["holds"]:
+                sched.hold(t, "line:" + f, n, lambda: False, d)
+
+            def dec(i):
+                def run():
+                    res[i] = check_stream(case["streams"][i])
+                return run
+            cts = [sched.spawn(dec(i), f"dec-{i}") for i in range(2)]
+            sched.run_until(lambda: all(c.state == "finished" for c in cts), 30.0)
+            info.update(holds_taken=sched.holds_taken, switches=sched.switches)
+            dead = [(c.name, repr(c.exc)) for c in cts if c.exc is not None or c.state != "finished"]
+        finally:
+            unreaped = sched.kill_all()
+    if unreaped:
+        raise RuntimeError(f"harness could not reap threads: {unreaped}")
+    if dead:
+        return [V("well-formed stream decodes", "concurrent/thread-died", str(dead))], info
+    # alone, afterwards, on this thread
+    vs = []
+    for i in range(2):
+        alone = {v.sig for v in check_stream(case["streams"][i])}
+        for v in res.get(i, []):
+            if v.sig not in alone:
+                vs.append(V(v.clause + " (also while another thread decodes)", "concurrent/" + v.sig, v.detail))
+    seen, out = set(), []
+    for v in vs:
+        if v.sig not in seen:
+            seen.add(v.sig)
+            out.append(v)
+    return out, info
+
+
 def run_case(case):
+    if case.get("conc"):
+        return run_conc(case)[0]
     return check_stream(case)
+
+
+def _collect_conc(shard, seed, n):
+    common.bootstrap()
+    refdict.all_classes()
+    col = Collector(PID, RULE)
+
+    def body(case):
+        vs, info = run_conc(case)
+        f = ["concurrent-decode"]
+        if info.get("holds_taken"):
+            f.append("concurrent-decode-delayed-inside-registry-code")
+        if info.get("holds_taken", 0) >= 2:
+            f.append("concurrent-decode-two-delays")
+        col.record(case, vs, nontrivial=bool(info.get("holds_taken")), classes=f)
+
+    common.hyp_collect(conc_cases(), body, n, seed)
+    return col
 
 
 def _collect(shard, seed, n):
@@ -242,13 +327,15 @@ def main(ctx):
         col = common.run_shards(_collect, 8, ctx.seed, n=100)
     else:
         col = common.run_shards(_collect, 16, ctx.seed, n=5000)
+    col.merge(common.run_shards(_collect_conc, 8 if ctx.quick else 16, ctx.seed + 77, n=25 if ctx.quick else 600))
     for path, rec in common.load_replays(PID):
         col.record(rec["case"], run_case(rec["case"]), nontrivial=True, classes=["replay"])
     ctx.required_classes = ["non-default-flags", "non-default-flags-nested", "unknown-pair", "multi-message", "nested-grouped",
-                            "reserved-flag-bits", "grouped"]
+                            "reserved-flag-bits", "grouped", "concurrent-decode-delayed-inside-registry-code", "concurrent-decode-two-delays"]
     ctx.assumptions = ["Vendor-ID 0 with the V flag is not generated (RFC 6733 4.1.1 forbids it)",
                        "Framed-IP-Address values with first octet 0 are not generated (documented limit)",
                        "dictionary = every class importable under bromelia (all modules imported by the harness)"]
-    ctx.shrinker = lambda sig, case: common.hyp_shrink(wire_stream(), lambda c: any(v.sig == sig for v in check_stream(c)),
-                                                       ctx.seed, n=1500, budget_s=40) or case
+    ctx.shrinker = lambda sig, case: (case if case.get("conc") else
+                                      common.hyp_shrink(wire_stream(), lambda c: any(v.sig == sig for v in check_stream(c)),
+                                                        ctx.seed, n=1500, budget_s=40) or case)
     return col
